@@ -872,7 +872,7 @@ def stateless_stream(tier, seed):
         k += 1
         if tier == 'quick' and cat in ('cardinality', 'dependency', 'required', 'mixed', 'gen_docs') and k % 3:
             continue
-        if tier != 'quick' and cat in ('cardinality', 'dependency') and k % 2:
+        if tier != 'quick' and ((cat in ('cardinality', 'dependency', 'gen_docs') and k % 2) or (cat == 'mixed' and k % 3)):
             continue
         yield cat, params, doc, g.targets_of(doc)
 
